@@ -59,8 +59,10 @@ class BalancedMoveRule(BaseRule):
         ):
             return None
 
-        if isinstance(node.parent, MultiplyExpression) and isinstance(
-            node, ConstantExpression
+        if (
+            isinstance(node.parent, MultiplyExpression)
+            and isinstance(node, ConstantExpression)
+            and node.value != 0
         ):
             # NOTE: Don't allow divisions or multiplications if there are additions
             #       remaining on the same side of the equation
